@@ -68,8 +68,14 @@ class Aliquot(Monitor):
         got_src = wells_of_result(world, op['src'], out.new_entries[0].view, rt.src)
         got_dst = wells_of_result(world, op['dst'], out.new_entries[1].view, rt.dst)
         base_sig = f"aliquot/{rt.form}/{rt.fam}"
-        for tag, exp, got, tols in (('source-loss', exp_src, got_src, rt.tol_src),
-                                    ('destination-gain', exp_dst, got_dst, rt.tol_dst)):
+        judged = [('source-loss', exp_src, got_src, rt.tol_src), ('destination-gain', exp_dst, got_dst, rt.tol_dst)]
+        if rt.same_plate and out.new_entries[0].view['k'] == 'p' and out.new_entries[1].view['k'] == 'p':
+            # within one plate each of the two results is the whole plate afterwards: loss and gain show on both
+            judged += [('source-loss-on-the-other-result', exp_src,
+                        wells_of_result(world, op['src'], out.new_entries[1].view, rt.src), rt.tol_src),
+                       ('destination-gain-on-the-other-result', exp_dst,
+                        wells_of_result(world, op['dst'], out.new_entries[0].view, rt.dst), rt.tol_dst)]
+        for tag, exp, got, tols in judged:
             for i, (e, g) in enumerate(zip(exp, got)):
                 gb = world.base(g)
                 for n in sorted(set(e) | set(gb)):
